@@ -24,7 +24,8 @@ CFG = dict(
              # thorough tier only: concurrent calls for the same / different ids under the Go race detector (the engine builds the
              # race-instrumented harness itself), sequential Lean model as linearizability oracle of the verdict multisets
              dict(harness="validationrace", driver="m_validation", case_delim=None, n_quick=0, n_thorough=150, thorough_seeds=2, n_search=0, search_seeds=0)],
-    rule="honest traffic = spec-test-kit partial-signature messages + every broadcast of real multi-operator QBFT runs (n=4/7, five consensus roles, scenarios: happy, "
+    rule="honest traffic = spec-test-kit partial-signature messages + every broadcast of real multi-operator QBFT runs (n=4/7, every 10th case n=10/13; directed "
+         "large-committee cases: all 10 / 13 operators active in one slot and round, then every per-signer limit again for early and late signers; five consensus roles, scenarios: happy, "
          "different start values, lost leaders (justified proposals rounds 2..12), prepared round changes with prepare justifications, shuffled delivery, one operator down, "
          "rounds up to the role maximum); per case: fresh real validator, a prefix of the honest trace (accepted), then up to six single-rule-breaking mutations of the next "
          "honest message (~95 mutation kinds: rounds, heights incl. +2^62 / 2^63 / max, signers, leader, full data, types, signatures, justifications, role, validator "
